@@ -39,7 +39,7 @@ def corpus():
 
 
 def gen_cases(tier):
-    n = 32 if tier == 'quick' else 400
+    n = 24 if tier == 'quick' else 150
     cases = []
     for c in corpus():
         c = dict(c)
